@@ -127,13 +127,16 @@ pub fn call<T>(what: &str, f: impl FnOnce() -> T) -> Called<T> {
 pub fn panic_signature(message: &str, location: &str) -> String {
     let file = location.rsplit('/').next().unwrap_or(location);
     let file = file.split(':').next().unwrap_or(file);
-    let head: String = message.chars().take(60).collect();
+    // one line, single spaces (assert messages span lines; a signature must survive being printed
+    // and compared line by line)
+    let flat: String = message.split_whitespace().collect::<Vec<_>>().join(" ");
+    let head: String = flat.chars().take(60).collect();
     let head: String = head.chars().map(|c| if c.is_ascii_digit() { '#' } else { c }).collect();
     format!("{}|{}", file, head)
 }
 
 pub fn err_signature(e: &RainDBError) -> String {
-    let s = format!("{:?}", e);
+    let s = format!("{:?}", e).split_whitespace().collect::<Vec<_>>().join(" ");
     let head: String = s.chars().take(48).collect();
     head.chars().map(|c| if c.is_ascii_digit() { '#' } else { c }).collect()
 }
